@@ -1,6 +1,15 @@
 // Contract overlay for unit `fswatch` (C13)
 //@ item Watcher
 //@ item WatchedPath
+//@ item Watcher::create
+//@ header
+    pub fn create(self, f: Callback) -> (r: CreateRes)
+        // the watcher created is of the kind asked for (the recommended back end, or the poll back end with the configured interval) and starts empty
+        ensures r.r is Ok ==> r.r->Ok_0.kind == self && r.r->Ok_0.registered@ =~= Map::<PathS, bool>::empty(), // OBL:C13.watcher_create.creates_the_configured_kind
+//@ prologue
+    CreateRes { r:
+//@ epilogue
+    }
 //@ item notify_multi_path_errors
 //@ header
 #[verifier::exec_allows_no_decreases_clause]
